@@ -136,6 +136,16 @@ theorem live_cells_are_lists (db : Db) (g : Guard) (ops : List Op) (i : Nat) (q 
     ∃ cs, readMap (reach db g ops).st.heap q.map = some cs ∧ ∀ kc ∈ cs, kc.2.frozen = false :=
   live_cells (reachable_invariant db g ops).inv hq
 
+/-- **every quantity obtainable through `ObtainQuantity` (in any form, directly or through
+`CreateDerived`, `MakeCopy`, pickling or arithmetic) has only units of its categories' quantity types**:
+for every live quantity after any history, simple or derived, each `(category, [unit, exp])` entry passes
+`CheckQuantityTypeUnit(GetCategoryQuantityType(category), unit)` -/
+theorem live_units_of_their_categories (db : Db) (g : Guard) (ops : List Op) (i : Nat) (q : Quantity)
+    (hq : (reach db g ops).st.objs[i]? = some q) :
+    ∃ cs, readMap (reach db g ops).st.heap q.map = some cs ∧
+      ∀ kc ∈ cs, db.categoryUnitValid kc.1 kc.2.unit = true :=
+  live_units_valid (reachable_invariant db g ops).inv hq
+
 /-- **on every reachable state two quantities are equal exactly when they have the same composing map
 (categories, units, exponents, in order) and caption**: `__eq__` would tell a list cell from a tuple
 cell, but live quantities only hold lists; requests that resolve differently give unequal quantities -/
@@ -232,6 +242,12 @@ def exOps2 : List Op := [
   .obtain (.str sLegacy) (.str sVolume) none,
   .obtain (.str sMcf) (.str sVolume) (some 0)]
 -- the tuple form no longer poisons the cache: (m, 1)(s, -1) as TUPLES, then (that) * cm succeeds
+/-- (cm, -1)(h, 3) under (depth, time) — cm is a unit of depth, h of time; then the same with the
+units swapped, which the dict form now rejects -/
+def sDepth : Sym := 448630121828
+def exGoodOp : Op := .obtain (.seq [⟨28003, -1, false⟩, ⟨104, 3, true⟩]) (.seq [sDepth, sTime] false) none
+def exBadOp : Op := .obtain (.seq [⟨104, -1, false⟩, ⟨28003, 3, true⟩]) (.seq [sDepth, sTime] false) none
+def exOps4 : List Op := [exGoodOp, exBadOp]
 def exOps3 : List Op := [
   .obtain (.seq [⟨sM, 1, true⟩, ⟨sS, -1, true⟩]) (.seq [sLength, sTime] true) none,
   .obtain (.str sCm) (.str sLength) none,
